@@ -308,8 +308,17 @@ def gen_case(rng, features=None, max_datasets=4, allow_full=True, allow_two_grou
                 # C02 keeps penalty intervals unambiguous on every axis they are applied to (C08 explores the rest)
                 from vf.ref.intervals import unambiguous
 
-                axes = [d["g"] for d in datasets]
-                if all(unambiguous(a, ivl) for a in axes) and unambiguous(allg, ivl):
+                from vf.ref.intervals import nearest_set
+
+                axes = [d["g"] for d in datasets] + [allg]
+
+                def ok(a):
+                    # every listed interval on its own (the library sums interval by interval: a point reached by two
+                    # listed intervals would be counted twice), and no point reached by two of them
+                    sets = [nearest_set(a, [iv]) for iv in ivl]
+                    return all(unambiguous(a, [iv]) for iv in ivl) and sum(len(x) for x in sets) == len(set().union(*sets))
+
+                if all(ok(a) for a in axes):
                     return ivl
                 return [[-float("inf"), float("inf")]] if rng.integers(2) else [[allg[0] - 1.0, allg[-1] + 1.0]]
 
